@@ -170,6 +170,13 @@ def msa_order_rules(ctx):
             i_ = lp.target.id
             ok_r = ok_r or any(isinstance(b, ast.Assign) and isinstance(b.targets[0], ast.Subscript) and same_expr(b.targets[0].slice, i_)
                                and isinstance(b.value, ast.Subscript) and same_expr(b.value.slice, f"str({i_})") for b in lp.body)
+    # ... or the same rows as a comprehension: [seq_dict[str(i)] for i in range(len(self._sequences))]
+    for lc in ast.walk(ev):
+        if isinstance(lc, ast.ListComp) and len(lc.generators) == 1 and not lc.generators[0].ifs and isinstance(lc.generators[0].target, ast.Name) \
+                and isinstance(lc.generators[0].iter, ast.Call) and call_name(lc.generators[0].iter) == "range" and len(lc.generators[0].iter.args) == 1 \
+                and same_expr(lc.generators[0].iter.args[0], "len(self._sequences)"):
+            i_ = lc.generators[0].target.id
+            ok_r = ok_r or (isinstance(lc.elt, ast.Subscript) and same_expr(lc.elt.slice, f"str({i_})"))
     ctx.ob("R6.msa-rows-by-label", MSA, "MSAApp.evaluate", "out_seq_str[i] = seq_dict[str(i)] for i in range(len(self._sequences))", ok_r,
            "row i of the alignment must be the output sequence labelled str(i), whatever order the program wrote them in", ev.lineno)
     # order: for position, label in enumerate(<output in file order>): order[position] = int(label)
@@ -281,6 +288,26 @@ def run(ctx):
     # a timeout of 0 seconds is a timeout (cancel at once), only None means "wait for ever"
     from ..lints import optional_numbers_tested_for_none
     optional_numbers_tested_for_none(ctx, "application/application.py", "R2.timeout-zero-honoured", 1)
+    # the same for every optional number / index / key of the other application modules (`sequence_index=0` is the first sequence)
+    for rel_ in sorted(files):
+        if rel_ != "application/application.py" and rel_.endswith(".py"):
+            optional_numbers_tested_for_none(ctx, rel_, "R6.optional-index-tested-for-none", 0)
+    # the polling join gives up only on a job that is NOT finished: the TimeoutError is raised under the fact
+    # `get_app_state() != FINISHED` of the same iteration (a job that finished long ago and is joined late is evaluated, not cancelled)
+    from ..facts import facts_at as _facts_at
+    from ..exprnorm import spec as _spec
+    jn = ctx.src("application/application.py").func("Application.join")
+    rs = [st for st in ast.walk(jn) if isinstance(st, ast.Raise) and st.exc is not None and "TimeoutError" in ast.unparse(st.exc)]
+    ctx.need(bool(rs), "TimeoutError of Application.join")
+    for r_ in rs:
+        # (the facts at the test that decides to give up: the body's own self.cancel() changes the state afterwards)
+        decide = [i_ for i_ in ast.walk(jn) if isinstance(i_, ast.If) and any(x is r_ for b_ in i_.body for x in ast.walk(b_))]
+        at = min(decide, key=lambda i_: sum(1 for _ in ast.walk(i_))) if decide else r_
+        fs = {repr(x) for x in _facts_at(jn, at)}
+        ctx.ob("R2.timeout-only-while-unfinished", "application/application.py", "Application.join", "raise TimeoutError under get_app_state() != FINISHED",
+               repr(_spec("self.get_app_state() != AppState.FINISHED")) in fs,
+               "the timeout is checked before the state: an application that has finished but is joined later than `timeout` seconds "
+               "after its start is cancelled and its results are thrown away", r_.lineno)
     msa_order_rules(ctx)
     construction_and_output_rules(ctx, idx, apps, files)
     ctx.count("application_classes", len(apps))
